@@ -45,8 +45,15 @@ Vec(es, lead, gap, final) ==
     LET r == RenderChangelog(es, lead, gap, final) IN
     [k |-> "cl", entries |-> es, lead |-> lead, gap |-> gap, final |-> final, bytes |-> r.bytes, ends |-> r.ends]
 \* every sign x hour x minute combination of the zone (half- and quarter-hour zones, west and east of Greenwich)
+\* options separated by a bare comma, or by a comma between blanks
+SepEntries == {E(hello, <<54>>, <<unstable>>, << <<urgency, medium>>, <<binonly, yes>>, <<<<99, 108, 111, 115, 101, 115>>, <<49, 50, 51>>>> >>, Body1, m1,
+                 D(1, 2, 1, 2006, 15, 4, 5, TRUE, 7, 0)) @@ [osep |-> sp] : sp \in {<<COMMA>>, <<SP, COMMA, SP, SP>>, <<COMMA, TAB>>}}
+\* change lines that hold the trailer's " -- " in the middle, or begin like a trailer after deeper indentation
+l8 == <<SP, SP, 42, SP, 112, 97, 115, 115, SP, HYPHEN, HYPHEN, 120, SP, HYPHEN, HYPHEN, SP, HYPHEN, HYPHEN, 104, 111, 115, 116>>   \* "  * pass --x -- --host"
+l9 == <<SP, SP, HYPHEN, HYPHEN, SP, 110, 111, 116, SP, 97, SP, 116, 114, 97, 105, 108, 101, 114>>                                  \* "  -- not a trailer"
+DashEntries == {E(hello, <<55>>, <<unstable>>, << <<urgency, low>> >>, <<<<>>, l8, l9, <<>>>>, m1, D(1, 2, 1, 2006, 15, 4, 5, TRUE, 7, 0))}
 ZoneEntries == {E(hello, <<49>>, <<unstable>>, << <<urgency, low>> >>, Body3, m1, D(1, 2, 1, 2006, 15, 4, 5, zn, zh, zm)) :
                    zn \in BOOLEAN, zh \in {0, 3, 9, 12}, zm \in {0, 30, 45}}
 ASSUME Emit(SetToSeq({Vec(es, lead, gap, final) : es \in Models, lead \in {0, 1}, gap \in {1, 2}, final \in BOOLEAN})
-            \o SetToSeq({Vec(<<e>>, 0, 1, TRUE) : e \in ZoneEntries} \cup {Vec(<<ZeroEpoch>>, 0, 1, TRUE)}))
+            \o SetToSeq({Vec(<<e>>, 0, 1, TRUE) : e \in ZoneEntries \cup SepEntries \cup DashEntries} \cup {Vec(<<ZeroEpoch>>, 0, 1, TRUE)}))
 =============================================================================
